@@ -20,7 +20,7 @@ def relevant(c):
 
 OPS = [("get", None), ("set", False), ("set_many", None), ("delete_many", False)]
 FAULTS = [None, {("recv", 1): "timeout"}, {("reply", 0): "client_error"}, {("sendall", 1): "reset"},
-          {("recv", 1): "eof"}, {("connect", 1): "refused"}, {("reply", 0): ("trunc", 3, True)}]
+          {("recv", 1): "eof"}, {("connect", 1): "refused"}, {("reply", 0): ("trunc", 3, True)}, {("reply", 0): "badvalue"}]
 IDLE = 5
 GAPS = [1, 5, 6]
 
@@ -30,7 +30,7 @@ def main(tier, rep):
     common.import_repo()
     length = 2 if tier == "quick" else 3
     ops = OPS[:2] if tier == "quick" else OPS[:3]
-    faults = FAULTS if tier == "quick" else FAULTS[:5]
+    faults = FAULTS if tier == "quick" else FAULTS[:5] + FAULTS[7:]
     step_choices = [(op, nr, f, g) for (op, nr) in ops for f in faults for g in GAPS]
     traces = []
     n = common.seed()
